@@ -113,3 +113,74 @@ Proof.
   - apply Z.ltb_ge in E. destruct (digits_spec z E) as [d [r [E1 [E2 [E3 [E4 E5]]]]]].
     exists [], d, r. rewrite E1. repeat split; auto; destruct (E5 H); auto.
 Qed.
+
+(* ---- the computable float premise implies the premise of the round-trip theorems ---- *)
+Lemma span_digits_split l : forall ds r, span_digits l = (ds, r) -> l = ds ++ r /\ all_digits ds = true.
+Proof.
+  induction l as [|b l IH]; intros ds r H; cbn in H.
+  - inversion H. auto.
+  - destruct (is_digit b) eqn:E.
+    + destruct (span_digits l) as [d t]. inversion H; subst. destruct (IH d r eq_refl) as [-> Hd].
+      split; auto. unfold all_digits in *. cbn. now rewrite E, Hd.
+    + inversion H; subst. auto.
+Qed.
+
+Lemma byte_eqb_eq a b : Byte.eqb a b = true -> a = b.
+Proof. apply Byte.byte_dec_bl. Qed.
+
+Lemma float_shapeb_sound txt : float_shapeb txt = true -> float_shape txt.
+Proof.
+  unfold float_shapeb, float_shape. intro H.
+  assert (Hb : exists sg body, txt = sg ++ body /\ (sg = [] \/ sg = [c_minus]) /\
+     match body with
+     | d0 :: dot :: r =>
+       is_digit d0 && Byte.eqb dot c_dot &&
+       (let '(fs, r2) := span_digits r in
+        negb (is_nil fs) &&
+        match r2 with
+        | e :: r3 => Byte.eqb e c_E &&
+          (let es := match r3 with m :: r4 => if Byte.eqb m c_minus then r4 else r3 | [] => [] end in
+           negb (is_nil es) && all_digits es)
+        | [] => false
+        end)
+     | _ => false
+     end = true).
+  { destruct txt as [|b r]; [discriminate|]. destruct (Byte.eqb b c_minus) eqn:E.
+    - apply byte_eqb_eq in E. subst. exists [c_minus], r. auto.
+    - exists [], (b :: r). auto. }
+  destruct Hb as [sg [body [-> [Hsg Hbody]]]].
+  destruct body as [|d0 [|dot r]]; try discriminate.
+  rewrite !andb_true_iff in Hbody. destruct Hbody as [[Hd0 Hdot] Hrest]. apply byte_eqb_eq in Hdot. subst.
+  destruct (span_digits r) as [fs r2] eqn:ES. destruct (span_digits_split _ _ _ ES) as [-> Hfs].
+  rewrite andb_true_iff in Hrest. destruct Hrest as [Hfs0 Hrest].
+  destruct r2 as [|e r3]; [discriminate|]. rewrite andb_true_iff in Hrest. destruct Hrest as [He Hes].
+  apply byte_eqb_eq in He. subst.
+  assert (He2 : exists sg2 es, r3 = sg2 ++ es /\ (sg2 = [] \/ sg2 = [c_minus]) /\ negb (is_nil es) && all_digits es = true).
+  { destruct r3 as [|m r4]; [discriminate|]. destruct (Byte.eqb m c_minus) eqn:E.
+    - apply byte_eqb_eq in E. subst. exists [c_minus], r4. auto.
+    - exists [], (m :: r4). auto. }
+  destruct He2 as [sg2 [es [-> [Hsg2 Hes2]]]]. rewrite andb_true_iff in Hes2. destruct Hes2 as [Hes0 Hes1].
+  exists sg, d0, fs, sg2, es. repeat split; auto.
+  - destruct fs; [discriminate|]. discriminate.
+  - destruct es; [discriminate|]. discriminate.
+Qed.
+
+Lemma f64_eqb_eq a b : f64_eqb a b = true -> a = b.
+Proof.
+  destruct a, b. cbn. rewrite !andb_true_iff. intros [[H1 H2] H3].
+  apply Bool.eqb_prop in H1. apply Z.eqb_eq in H2, H3. congruence.
+Qed.
+
+Lemma float_okb_sound f : float_okb f = true -> float_ok f.
+Proof.
+  unfold float_okb, float_ok. rewrite andb_true_iff. intros [H1 H2]. split; [now apply float_shapeb_sound|].
+  destruct (parse_float _) as [g|]; [|discriminate]. apply f64_eqb_eq in H2. congruence.
+Qed.
+
+Lemma floats_okb_sound v : floats_okb v = true -> floats_ok v.
+Proof.
+  induction v using jv_ind2; cbn; auto.
+  - apply float_okb_sound.
+  - intros H1. rewrite forallb_forall in H1. apply all_list_Forall. rewrite Forall_forall in *. auto.
+  - intros H1. rewrite forallb_forall in H1. apply all_list_Forall. rewrite Forall_forall in *. auto.
+Qed.
